@@ -712,6 +712,11 @@ def impl_run(case):
             b = None
             if idx is not None and rec.poller is not None:
                 b = note_ext(['ui', idx, _tick(pollinterval)])
+                if rec.is_poller() and rec.cur is not None and rec.cur['f'] == 'w':
+                    # writeInitParams writes the configured poll interval: the module is TOLD its interval, like by any other
+                    # assignment — recorded for the judge where it is issued.  (Behind a start-up round that a communication
+                    # failure broke off this happens after the start-up callback, i.e. it can come after a client's change.)
+                    rec.cmds[idx].append(['pi', rec.now(), _tick(pollinterval)])
             r = orig_ui(self, pollinterval)
             if b is not None:
                 b['set'] = ev.is_set()
